@@ -203,6 +203,7 @@ func checkC15(ctx *Ctx, r *Report) {
 	c15FifthRound(ctx, r)
 	c15SixthRound(ctx, r)
 	c15SeventhRound(ctx, r)
+	c15EighthRound(ctx, r)
 }
 
 // isSelectorTest: cond contains a test of the pass's selector.
@@ -1574,4 +1575,121 @@ func c20UnionSingleMember(ctx *Ctx, r *Report) int {
 		}
 	}
 	return n
+}
+
+// c15EighthRound — sixth hunt of C15:
+//   - a pass that creates an object under a name its configuration gives (add_object, duplicate_object) refuses a name
+//     that is taken: the visitor adds new objects with Schema.AddObject, which replaces;
+//   - rename_object changes nothing when no object matches (the references to a package that is not among the schemas
+//     keep their name);
+//   - trim_enum_values also trims the members named by the default of a list or of a map.
+func c15EighthRound(ctx *Ctx, r *Report) {
+	n := 0
+	// (a)
+	creators := 0
+	ctx.AllFuncDecls(func(p *packages.Package, fd *ast.FuncDecl, obj *types.Func) {
+		if fd.Body == nil || fd.Recv == nil || !strings.HasSuffix(p.PkgPath, "/internal/ast/compiler") {
+			return
+		}
+		info := p.TypesInfo
+		registers, configured := false, false
+		ast.Inspect(fd.Body, func(m ast.Node) bool {
+			switch x := m.(type) {
+			case *ast.CallExpr:
+				if f := callee(info, x); f != nil && f.Name() == "RegisterNewObject" {
+					registers = true
+				}
+			case *ast.SelectorExpr:
+				if f, ok := info.Uses[x.Sel].(*types.Var); ok && f.IsField() && namedName(f.Type()) == "ObjectReference" {
+					configured = true
+				}
+			}
+			return true
+		})
+		if !registers || !configured {
+			return
+		}
+		creators++
+		guarded := false
+		ast.Inspect(fd.Body, func(m ast.Node) bool {
+			is, ok := m.(*ast.IfStmt)
+			if !ok || !endsInExit(is.Body) {
+				return true
+			}
+			ast.Inspect(is.Cond, func(q ast.Node) bool {
+				if c, ok := q.(*ast.CallExpr); ok {
+					if f := callee(info, c); f != nil && (f.Name() == "HasObject" || f.Name() == "LocateObject") {
+						guarded = true
+					}
+				}
+				return true
+			})
+			return true
+		})
+		n++
+		r.Check(guarded, "effects/created-object-name-free", ctx.FuncName(obj)+" creates an object under a configured name", fd.Pos(), "a name that is taken is refused",
+			ctx.FuncName(obj)+" registers a new object under the name its configuration gives without looking at the schema; the visitor adds it with Schema.AddObject, which replaces: `add_object main.Foo as string` (or `duplicate_object main.Src as main.Foo`) next to an existing Foo replaces the struct, its fields and comments, without a word")
+	})
+	r.Count("passes creating an object under a configured name", creators)
+	r.Floor("passes creating an object under a configured name", 2)
+	// (b)
+	if fn := ctx.LookupMethod("internal/ast/compiler", "RenameObject", "Process"); fn == nil {
+		r.Undecided("anchor lost: compiler.RenameObject.Process")
+	} else if fd, p := ctx.DeclOf(fn); fd != nil {
+		info := p.TypesInfo
+		var visit token.Pos
+		ast.Inspect(fd.Body, func(m ast.Node) bool {
+			if c, ok := m.(*ast.CallExpr); ok {
+				if f := callee(info, c); f != nil && f.Name() == "VisitSchemas" && !visit.IsValid() {
+					visit = c.Pos()
+				}
+			}
+			return true
+		})
+		untouched := false
+		for _, st := range fd.Body.List {
+			is, ok := st.(*ast.IfStmt)
+			if !ok || !visit.IsValid() || is.Pos() > visit || len(is.Body.List) != 1 {
+				continue
+			}
+			if rs, ok := is.Body.List[0].(*ast.ReturnStmt); ok && len(rs.Results) == 2 && exprString(rs.Results[0]) == "schemas" && isNilIdent(info, rs.Results[1]) {
+				untouched = true
+			}
+		}
+		n++
+		r.Check(untouched, "effects/rename-without-target-changes-nothing", "compiler.RenameObject.Process finds no object to rename", fd.Pos(), "the schemas are returned as they are",
+			"the references that match the configured name are rewritten whether or not an object does: with package common not among the schemas, `rename_object common.TimeZone → TZ` turns ref(common.TimeZone) into ref(common.TZ), a name that exists nowhere")
+	}
+	// (c)
+	if fn := ctx.LookupMethod("internal/ast/compiler", "TrimEnumValues", "Process"); fn == nil {
+		r.Undecided("anchor lost: compiler.TrimEnumValues.Process")
+	} else if fd, _ := ctx.DeclOf(fn); fd != nil {
+		handlers := map[string]bool{}
+		ast.Inspect(fd.Body, func(m ast.Node) bool {
+			kv, ok := m.(*ast.KeyValueExpr)
+			if !ok {
+				return true
+			}
+			k, ok := kv.Key.(*ast.Ident)
+			if !ok || (k.Name != "OnArray" && k.Name != "OnMap") {
+				return true
+			}
+			ast.Inspect(kv.Value, func(q ast.Node) bool {
+				if as, ok := q.(*ast.AssignStmt); ok {
+					for _, l := range as.Lhs {
+						if strings.HasSuffix(exprString(l), ".Default") {
+							handlers[k.Name] = true
+						}
+					}
+				}
+				return true
+			})
+			return true
+		})
+		n++
+		r.Check(handlers["OnArray"] && handlers["OnMap"], "effects/trimmed-collection-defaults", "compiler.TrimEnumValues rewrites the values that designate a member", fd.Pos(), "the defaults of lists and maps of members included",
+			"the default of a reference and the value of a constant reference follow the trimmed members, the items of a list default and the values of a map default do not: `kinds: []Kind default [\" z \"]` designates nothing once the member is \"z\"")
+	}
+	r.Count("hunted clauses of the transformation rules (8th round)", n)
+	r.Floor("hunted clauses of the transformation rules (8th round)", 4)
 }
